@@ -9,6 +9,7 @@ import Kap.Spec.C05
 import Kap.Gen.C05
 import Kap.Model.C05Parse
 import Kap.Model.C05Eval
+import Kap.Model.C05Rr
 open Kap Kap.C05
 
 namespace Kap.C05.Drv
@@ -281,6 +282,66 @@ def cmpFrames : List String → List String → Bool
 
 def fail (r : String × String) : Verdict := .specfail r.1 r.2
 
+/-! ### request / response pairing of udf.Server (`udfrr`) -/
+
+section RrTie
+open Kap.C05.Rr
+
+def rrKind : Char → Option Kind
+  | 'I' => some .info | 'T' => some .init | 'S' => some .snapshot | 'R' => some .restore | _ => none
+
+def rrTok : Kind → String
+  | .info => "I" | .init => "T" | .snapshot => "S" | .restore => "R"
+
+/-- step tokens → model steps; the tag of a response is the 1-based position of its step. -/
+def parseRrSteps : Nat → List String → Option (List Rr.Step)
+  | _, [] => some []
+  | i, t :: rest => do
+    let st ← match t.toList with
+      | ['s', 'K'] => some Rr.Step.keepalive
+      | ['s', c] => if c == 'X' || c == 'N' || c == 'G' then some Rr.Step.bad else (rrKind c).map (Rr.Step.send · (i + 1))
+      | ['q', c] => (rrKind c).map Rr.Step.req
+      | ['w', c] => (rrKind c).map Rr.Step.wait
+      | _ => none
+    let more ← parseRrSteps (i + 1) rest
+    pure (st :: more)
+
+def renderRes : Res → String
+  | .got _ t => s!"g{t}" | .trap _ => "panic" | .abort => "abort" | .blocked => "blocked" | .none => "none"
+
+/-- which structural case of the model a step meets (coverage only) -/
+def rrLabels (R : Routing) (s : Rr.St) : Rr.Step → List String
+  | .keepalive => ["rr.keepalive"]
+  | .bad =>
+    if s.aborted then ["rr.bad-after-abort"]
+    else if Kind.all.any (fun k => s.reqs k == .waiting) then ["rr.abort-releases-waiting"] else ["rr.abort-idle"]
+  | .send j _ =>
+    if s.aborted then ["rr.send-after-abort"]
+    else if Kind.all.any (fun k => R.reads k == R.route j && s.reqs k == .waiting) then [s!"rr.answer.{rrTok j}"]
+    else if s.slots.any (fun e => e.1 == R.route j) then [s!"rr.stray-dropped.{rrTok j}"]
+    else if Kind.all.any (fun k => s.reqs k == .waiting) then [s!"rr.stray-parked-while-another-waits.{rrTok j}"]
+    else [s!"rr.stray-parked.{rrTok j}"]
+  | .req k =>
+    match s.reqs k with
+    | .idle =>
+      if s.aborted then ["rr.req-after-abort"]
+      else
+        let others := (s.slots.filter (fun e => e.2.1 != k)).map (fun e => s!"rr.parked.{rrTok e.2.1}.then-req.{rrTok k}")
+        (if s.slots.any (fun e => e.1 == R.reads k) then s!"rr.req-takes-parked.{rrTok k}" else s!"rr.req-waits.{rrTok k}") :: others
+    | _ => ["rr.req-twice"]
+  | .wait k =>
+    match s.reqs k with
+    | .done (.got _ _) => ["rr.wait-got"] | .done .abort => ["rr.wait-abort"] | .done _ => ["rr.wait-other"]
+    | .waiting => ["rr.wait-blocked"] | .idle => ["rr.wait-none"]
+
+def rrTrace (R : Routing) : Rr.St → List Rr.Step → List String → List String
+  | _, [], acc => acc
+  | s, st :: rest, acc => rrTrace R (Rr.step R s st) rest (acc ++ rrLabels R s st)
+
+def srcRouting : Routing := Routing.ofLists Gen.udfRoute Gen.udfReads Gen.udfAsserts
+
+end RrTie
+
 def judgeLine (a : Acc) (l : String) : Except Verdict Acc := do
   let (op, obs) := splitObs (tokens l)
   match op with
@@ -377,6 +438,41 @@ def judgeLine (a : Acc) (l : String) : Except Verdict Acc := do
                match mf with | .clean => "ok" | .err => "err" | .trap => "crash"]
     if ms != obs then throw (.mismatch s!"udfwrite: model {ms} observed {obs}")
     pure { (a.add (ks.map (fun k => if k.supported then "udfwrite.supported" else "udfwrite.skipped-field"))) with nt := true }
+  | "udfrr" :: stepToks =>
+    let some steps := parseRrSteps 0 stepToks | throw (.badop l)
+    let results ← obs.mapM (fun t => match t.splitOn ":" with
+      | [k, r] => pure (k, r)
+      | _ => if t == "X" || t == "crash" || t == "hang" then pure ("X", t) else throw (Verdict.badop l))
+    if let some r := rrSpec obs results then throw (fail r)
+    let sEnd := Rr.runFrom srcRouting ({} : Rr.St) steps
+    let (mres, racy) := Rr.finish sEnd
+    let finErr := sEnd.aborted || Rr.Kind.all.any (fun k => sEnd.reqs k != .idle)
+    let ms := mres.map (fun kr => s!"{rrTok kr.1}:{renderRes kr.2}") ++ [if finErr then "fin:err" else "fin:ok"]
+    let br := rrTrace srcRouting ({} : Rr.St) steps []
+    if racy then pure (a.add ("rr.racy-not-compared" :: br))
+    else
+      if ms != obs then throw (.mismatch s!"udfrr: model {ms} observed {obs}")
+      let hasReq := steps.any (fun st => match st with | .req _ => true | _ => false)
+      let hasSend := steps.any (fun st => match st with | .send _ _ => true | _ => false)
+      pure { (a.add br) with nt := a.nt || (hasReq && hasSend) }
+  | ["udftask", when_, stray] =>
+    match obs with
+    | ["X", how] => throw (.specfail (if how == "hang" then "terminates" else "process-survives")
+        s!"udftask {when_} {stray}: {how} (a task with a snapshot interval whose UDF sent one well-formed response nobody asked for)")
+    | [cn, te, by_, snap] =>
+      let some cn := cn.toNat? | throw (.badop l)
+      let some te := te.toNat? | throw (.badop l)
+      let (got, all) ← match by_.splitOn "/" with
+        | [g, t] => match g.toNat?, t.toNat? with
+          | some g, some t => pure (g, t)
+          | _, _ => throw (.badop l)
+        | _ => throw (.badop l)
+      match liveSpec false cn 6 te got all with
+      | some r => throw (.specfail r.1 s!"udftask {when_} {stray}: {r.2}")
+      | none =>
+        if snap == "1" then pure { (a.add [s!"udftask.{when_}.{stray}", "udftask.snapshots-after-stray"]) with nt := true }
+        else pure (a.add ["udftask.no-snapshot-seen"])
+    | _ => throw (.badop l)
   | ["jsoncover", tag, field, st] =>
     if st == "hole" then throw (.mismatch s!"jsoncover: field {field} of typeOf {tag} is read by an unmarshal method but occurs in no base document (coverage hole)")
     pure (a.add ["jsoncover"])
